@@ -799,7 +799,7 @@ def default_state_rejects(m, aps):
     state_field = "this->" + st[0]["qname"].split("::")[-1]
     for t in ("intermediarySegment", "lastSegment"):
         try:
-            if tables.ceval(ivt, {state_field: s0, ivt.params[0]["decl"]: vals[t]}):
+            if tables.ceval(ivt, {state_field: s0, ivt.params[0]["decl"]: vals[t], "__fb__": fb}):
                 return False, "default state %d accepts %s" % (s0, t)
         except tables.Unsupported as e:
             return False, "transition test outside the table vocabulary (%s)" % e
@@ -1193,10 +1193,26 @@ def rule_accept_guard(res, rid, m):
     if set(vals) != set(want):
         raise Broken("SegmentType enumerators changed: %s" % sorted(vals))
     state_field = "this->" + role["segment state"].split("::")[-1]
+    # segment types that can reach addSegment at all: when decode hands it continuation segments only, the answers for
+    # `unsegmented` and `firstSegment` are unobservable and a table that rejects them is the same program
+    reach = set(want)
+    try:
+        labs = [seg_labels(fb, p) for p in m.body_paths() if any(True for _ in p.calls(SEG + "::addSegment"))]
+        if labs and all(l["segmented"] is True and l["first"] is False for l in labs):
+            reach = {"intermediarySegment", "lastSegment"}
+    except Broken:
+        pass
     for s in sorted(want):
         for t in sorted(want):
+            if t not in reach:
+                try:
+                    tables.ceval(ivt, {state_field: vals[s], ivt.params[0]["decl"]: vals[t], "__fb__": fb})
+                except tables.Unsupported as e:
+                    raise Broken("isValidSegmentType outside the table vocabulary: %s" % e)
+                res.ok(rid, "transition:%s->%s" % (s, t), ivt.loc, "%s -> %s: never asked (addSegment only receives continuation segments)" % (s, t))
+                continue
             try:
-                got = tables.ceval(ivt, {state_field: vals[s], ivt.params[0]["decl"]: vals[t]})
+                got = tables.ceval(ivt, {state_field: vals[s], ivt.params[0]["decl"]: vals[t], "__fb__": fb})
             except tables.Unsupported as e:
                 raise Broken("isValidSegmentType outside the table vocabulary: %s" % e)
             exp = t in want[s]
